@@ -16,6 +16,16 @@ mod c11;
 mod c12;
 #[path = "c05.rs"]
 mod c05;
+#[path = "rec.rs"]
+mod rec;
+#[path = "c02.rs"]
+mod c02;
+#[path = "c17.rs"]
+mod c17;
+#[path = "c15.rs"]
+mod c15;
+#[path = "c03.rs"]
+mod c03;
 
 pub async fn main(monitor: String) -> Result<(), easy_error::Terminator> {
     let args = util::Args::parse();
@@ -27,6 +37,10 @@ pub async fn main(monitor: String) -> Result<(), easy_error::Terminator> {
         "c11" => c11::run(&args),
         "c12" => c12::run(&args).await,
         "c05" => c05::run(&args).await,
+        "c02" => c02::run(&args).await,
+        "c17" => c17::run(&args).await,
+        "c15" => c15::run(&args).await,
+        "c03" => c03::run(&args).await,
         other => {
             eprintln!("unknown monitor {}", other);
             std::process::exit(3);
